@@ -313,6 +313,19 @@ macro_rules! sack_instance {
     };
 }
 
+macro_rules! sack_instance_quiet {
+    ($(#[$m:meta])* $name:ident, $n:expr, $base:expr, $d:expr, $one:expr) => {
+        $(#[$m])*
+        #[kani::proof]
+        #[kani::unwind(6)]
+        fn $name() {
+            let f = ack_step::<$n>(true, $one, AckSel::At($base, $d));
+            assert!(f.k == 0 && f.newly_sacked == 0, "C10: a far-stale SACK acknowledges nothing");
+            kani::cover!(true, "end of harness reachable (assumptions satisfiable, no unconditional failure)");
+        }
+    };
+}
+
 // @verif id=SEG.sack3.dm2 props=C01,C04,C06,C09,C10 tier=quick timeout=900
 // @functions Segments::remove_up_to_ack, SelectiveAck::iter, SelectiveAck::as_bitslice, SelectiveAck::len, Segment::update_rtt
 // @bounds N = 3 segments at sequence numbers 65534, 65535, 0 (straddling the wrap); ack_nr = snd_una-2 (stale ACK whose SACK bit 0 names snd_una); 8-byte SACK with 16 arbitrary leading bits; sizes/flags/send status/now symbolic
@@ -352,6 +365,14 @@ sack_instance!(seg_sack_n3_dm1_onebyte, 3, 100, -1, true);
 // @assumes representation invariant on the pre-state
 // @unwindset bitvec=9
 sack_instance!(seg_sack_n3_dm1_at_wrap, 3, 0, -1, false);
+
+// @verif id=SEG.sack3.dm70 props=C10,C01 tier=quick timeout=900
+// @functions Segments::remove_up_to_ack, SelectiveAck::iter
+// @bounds N = 3 segments at 65534, 65535, 0; a STALE ACK 70 sequence numbers behind snd_una carrying a SACK with 16 arbitrary leading bits (the SACK window ends before the first queued segment: hostile / very late datagram)
+// @asserts no panic; nothing is removed or marked (every SACK bit names a sequence number below snd_una); invariant holds
+// @assumes representation invariant on the pre-state
+// @unwindset bitvec=70
+sack_instance_quiet!(seg_sack_n3_far_stale, 3, 65534, -70, false);
 
 // @verif id=SEG.sack3.d1 props=C01,C04,C06,C09 tier=thorough timeout=1800
 // @functions Segments::remove_up_to_ack
